@@ -35,7 +35,7 @@ func (S) Info() scen.Info {
 			"node/bindnode, schema, schema/dsl+dmt (LoadSchemaBytes), codecHelpers (Marshal/Unmarshal), codec/dagcbor, codec/dagjson": "real, one OS process per history and per reference operation",
 			"scheduler / faults": "none needed: the deciding dimension is the history inside one process",
 		},
-		QuickUnits: 2500, ThoroughUnits: 300000, QuickSecs: 50, ThoroughSecs: 1200,
+		QuickUnits: 2500, ThoroughUnits: 300000, QuickSecs: 240, ThoroughSecs: 1200,
 		ProbeKeys:    []string{"probe.repeat_same_type_inferred", "probe.repeat_same_type_explicit", "probe.shared_list_name_inferred", "probe.same_name_two_packages_inferred", "probe.explicit_after_inferred", "probe.fidelity_checked"},
 		EventsKey:    "events",
 		ShrinkBudget: 120,
@@ -136,6 +136,9 @@ func (S) RunTape(t *sim.Tape, st *sim.Stats, keepLog bool) *sim.Outcome {
 	gen1 := func() Op {
 		ti := t.Choice(len(vocab), "op.type")
 		op := Op{Kind: t.Choice(3, "op.kind"), Type: ti, Val: t.Choice(32, "op.val"), Json: t.Bool("op.json")}
+		if vocab[ti].cborOnly {
+			op.Json = false
+		}
 		if vocab[ti].inferable {
 			op.Inferred = t.Bool("op.inferred")
 		}
@@ -205,7 +208,10 @@ func (S) RunTape(t *sim.Tape, st *sim.Stats, keepLog bool) *sim.Outcome {
 		} else if !strings.HasPrefix(ref, "PANIC") && !strings.HasPrefix(ref, "ERR") {
 			st.Inc("probe.fidelity_checked")
 		}
-		if strings.HasPrefix(ref, "PANIC") || strings.Contains(ref, "ERR:") || strings.Contains(ref, "unreadable:") {
+		if vocab[op.Type].mayRefuseInferred && op.Inferred && strings.HasPrefix(ref, "PANIC") {
+			// an inferred schema cannot describe this type; refusing is a legal answer
+			st.Inc("probe.inference_refused_name_clash")
+		} else if strings.HasPrefix(ref, "PANIC") || strings.Contains(ref, "ERR:") || strings.Contains(ref, "unreadable:") {
 			// every (type, schema mode) in the vocabulary is a supported shape with a valid value:
 			// a refusal, or a view that cannot be read consistently, is a fidelity failure
 			o.Fail("fidelity", name+" "+reasonClass(ref), "%s (fresh process): %s", op, trunc(ref))
